@@ -65,6 +65,7 @@ def cases(draw, tier="quick"):
     P["w_due"] = draw(st.sampled_from([None, None, 1, 2]))      # eventual-send turns may lag behind the network
     P["gets_lag"] = draw(st.booleans())      # a reader that calls get_message() only after messages have arrived
     n = draw(st.integers(0, 260))
+    P["closing_drops"] = draw(st.booleans())   # graceful server closes pass through the WebSocket CLOSING state
     P["tape"] = draw(st.binary(min_size=n, max_size=n))
     return P
 
